@@ -69,9 +69,15 @@ def enum_base(t):
     return m.group(1) if m else t
 
 
+# parameters the documentation declares ignored (kept for backward compatibility)
+IGNORED_PARAMS = {("cg_conn_read", "donor_datatype"), ("cg_conn_write", "donor_datatype")}
+
+
 def arg_for12(fname, i, pn, pt, writer):
     """C07.arg_for with the invalid classes C12 asks for: -> (valid expression, kind, [(class, expression, must fail)])"""
     v, kind, inv = C07.arg_for(fname, i, pn, pt, writer)
+    if (fname, pn) in IGNORED_PARAMS:
+        return v, kind, []
     t = pt.replace("const ", "").strip()
     if t == "int" and pn in INDEX and kind != "index" and kind not in ("handle", "special"):
         kind, inv = "index", [("index-0", "0", 1), ("index--1", "-1", 1), ("index-count+1", "1000", 1), ("index-INT_MAX", "INT_MAX", 1)]
@@ -111,7 +117,7 @@ def gen_stubs(d, path):
     (position, invalid class).  -> (entries, static_only)"""
     api = [a for a in d["api"] if a["defined"]]
     protos = d["protos"]
-    out, entries, static_only = ["static cgsize_t SZ_NEG[64] = {[0 ... 63] = -5};"], [], {}
+    out, entries, static_only = ["static cgsize_t SZ_NEG[64] = {[0 ... 63] = -1000};"], [], {}
     for a in api:
         name = a["name"]
         pr = protos[name]
@@ -359,7 +365,13 @@ FAMILY_CLAIM = {"handle": {"handle"}, "index": {"index", "range"}, "name-long": 
                 "range": {"range", "enum", "null"}, "datatype": {"name", "range", "enum"}}
 
 
-def callees_of(f):
+_CALLEES = {}
+
+
+def callees_of(fn, F, depth=3):
+    """callees of fn, transitively to a small depth (for the attribution of a failing case to a shared root cause)"""
+    if (fn, depth) in _CALLEES:
+        return _CALLEES[(fn, depth)]
     out = set()
 
     def walk(l):
@@ -370,7 +382,12 @@ def callees_of(f):
             for k in ("t", "e", "b"):
                 if k in s:
                     walk(s[k])
-    walk(f["body"])
+    if fn in F:
+        walk(F[fn]["body"])
+        if depth > 1:
+            for g in list(out):
+                out |= callees_of(g, F, depth - 1)
+    _CALLEES[(fn, depth)] = out
     return out
 
 
@@ -379,8 +396,8 @@ def finding_key(fn, var, what, state, F, claims):
     fam = family(var["cls"])
     changed = any("changed" in w or "CHANGED" in w for w in what)
     accepted = any(w.startswith("accepted") for w in what)
-    cs = callees_of(F[fn]) if fn in F else set()
-    if fam == "name-empty" and ("name" in claims.get(fn, {}).get(var["pos"] + 1, set())) and not accepted:
+    cs = callees_of(fn, F)
+    if fam == "name-empty" and not accepted and ("name" in claims.get(fn, {}).get(var["pos"] + 1, set()) or "cgi_check_strlen" in cs):
         return "cgi_check_strlen:string:name-empty"      # the validator runs and lets the empty name through
     if changed and not accepted and state == "bare" and fam != "name-empty":
         if "cgi_get_zcoorGC" in cs:
